@@ -5,7 +5,7 @@ use crate::hashorder;
 use crate::pipeline::{Lang, ALL_LANGS};
 use crate::report::{self, Report, Violation};
 use serde_json::json;
-use std::collections::BTreeMap;
+use std::collections::{BTreeMap, BTreeSet};
 
 fn const_capable(lang: Lang) -> bool {
     matches!(lang, Lang::TypeScript | Lang::Go | Lang::Python)
@@ -254,6 +254,30 @@ pub fn run(args: &[String]) -> i32 {
         }
     }
 
+    // pilot: one job per family first. If the binary hangs or cannot follow any schedule there, running the other
+    // thousands of replays into their watchdogs would take hours and add nothing.
+    {
+        let mut seen_fams: BTreeSet<&str> = BTreeSet::new();
+        let pilot: Vec<&Job> = jobs.iter().filter(|j| seen_fams.insert(j.family)).collect();
+        let pres: Vec<Replay> = par_map(&pilot, report::threads(), |j| e3::replay(&j.files, &j.schedule, j.lang, j.multi, j.threads, &[]));
+        let hangs: Vec<(&&Job, &Replay)> = pilot.iter().zip(pres.iter()).filter(|(_, r)| r.class == "hang").collect();
+        let infeasible = pres.iter().filter(|r| r.class == "schedule-infeasible").count();
+        if !hangs.is_empty() || infeasible * 2 > pilot.len() {
+            for (j, r) in &hangs {
+                rep.vios.add(Violation {
+                    sig: format!("C06|run-failed:hang|family={}|{}|pilot", j.family, j.lang.name()),
+                    detail: json!({"family": j.family, "argv": r.argv, "schedule": r.schedule, "exit_code": r.code, "stderr": r.stderr, "note": "pilot run (one job per family); the remaining replays were skipped"}),
+                });
+            }
+            if hangs.is_empty() {
+                rep.machinery(format!("pilot: {infeasible} of {} pilot schedules could not be followed by the binary; the remaining {} replays were skipped", pilot.len(), jobs.len()));
+            }
+            rep.cov("pilot", json!({"jobs": pilot.len(), "hangs": hangs.len(), "schedules_not_followed": infeasible, "remaining_jobs_skipped": jobs.len()}));
+            hashorder::c06_family(&mut rep);
+            hashorder::c06_internal_sets_family(&mut rep);
+            return rep.finish();
+        }
+    }
     let results: Vec<Replay> = par_map(&jobs, report::threads(), |j| e3::replay(&j.files, &j.schedule, j.lang, j.multi, j.threads, &[]));
     let mut classes: BTreeMap<String, BTreeMap<String, usize>> = BTreeMap::new(); // class -> outputs key -> first job index
     let mut fam_counts: BTreeMap<&str, u64> = BTreeMap::new();
